@@ -8,7 +8,7 @@ from concurrent.futures import ProcessPoolExecutor
 from .common import Report, jhash
 from .tlc import run_tlc, require_ok, TlcFailure
 
-ALL_ACTIONS = ["AddSession", "Start", "Loop", "Proc", "Decide", "SchedReturn", "Update", "Apply", "Finish"]
+ALL_ACTIONS = ["AddSession", "Start", "Loop", "Proc", "ProcEnd", "Decide", "SchedReturn", "Update", "ApplyWith", "Finish"]
 
 
 # ------------------------------------------------------------------ behaviour generation
@@ -183,7 +183,7 @@ KINDS = ["cont", "deadband", "finite"]
 def _kw_cycle(i, seed, **base):
     r = random.Random(seed * 7919 + i)
     kw = dict(base)
-    kw.setdefault("constraints", ["none", "agg", "agg", "3ph"][i % 4])
+    kw.setdefault("constraints", ["none", "agg", "agg", "3ph", "removed", "3ph", "agg"][i % 7])
     kw.setdefault("evse_kinds", [r.choice(KINDS) for _ in range(3)])
     kw.setdefault("store_hist", bool(i % 3))
     return kw
